@@ -7,6 +7,9 @@ props = [json.loads(l) for l in open('/verif/properties.jsonl')]
 
 # id -> (technique, level text, level note, design ref)
 CHECKS = {
+ "C20": ("stateless model checking of the implementation: all schedules of the lock / exec / spawn points of N concurrent FormatFile calls under a cooperative scheduler (verifhook overlay), bounded by the number of deviations from run-to-completion; x all tool environments",
+         "N=2 unbounded and N=3 with <= 2 (quick) / N=3 <= 4, N=4 <= 2 (thorough) deviations, for every multiset of formats and every assignment of {installed, missing, failing} to the tools involved: probe at most once per cache, exactly one run per request, missing tool => nil and untouched file, failing run => error, no deadlock, no panic; each failing schedule is replayed before it is believed",
+         "data races are decided by a separate free-running pass of the same harness body built with -race and stand-in tools on PATH (sampling, reported separately in the evidence); scheduling points only at Lock and command start", "DESIGN.md §4 C20, §8.3"),
  "C01": ("bounded exhaustive program enumeration (F-types, F-tables, F-enum) x 4 Go generator configurations, each accepted output import-fixed and type-checked with go/types next to its source package",
          "every program within 2 (quick) / 3 (thorough) deviations x {gounions, randdata, sqlcrud, sqlcrud+sets}: no accepted input yields Go that fails to parse or type-check",
          "quick tier uses an in-memory model of goimports (unused imports removed, missing ones added by package name among the program's packages then the standard library); lib/pq replaced by a stub with its signatures", "DESIGN.md §4 C01"),
